@@ -260,7 +260,7 @@ func c01Msgs(n int) []*Message {
 		if i == 2 {
 			// an incompressible payload (JPEG/ZIP-like): the compressed form is larger than the message
 			x := uint32(12345)
-			b := make([]byte, 1500)
+			b := make([]byte, 700)
 			for k := range b {
 				x = x*1664525 + 1013904223
 				b[k] = byte(0x21 + (x>>16)%0xdd)
